@@ -1,11 +1,19 @@
 #!/bin/bash
-# usage: seedcheck.sh <seed-name> <property> [tier]   -- applies the seeded patch to /repo, runs the check, reverts.
+# usage: seedcheck.sh <seed-name> <property> [tier]
+# Applies the seeded patch in a scratch worktree of /repo (outside /repo and /verif), runs the check against it
+# with its own out/evidence directories, removes the worktree. /repo itself and /verif/evidence are not touched,
+# so several seeds (and ordinary checks) can run at the same time.
 set -u
 NAME=$1; P=$2; TIER=${3:-quick}
 D=/verif/seeded/$NAME
+WT=/tmp/seedwt_${NAME}_$P; SO=/tmp/seedout_${NAME}_$P
 cd /verif
-git -C /repo apply $D/patch.diff || { echo "patch does not apply"; exit 9; }
-./check $P $TIER > $D/check_$P.$TIER.log 2>&1; rc=$?
-git -C /repo checkout -- .
+git -C /repo worktree remove --force $WT >/dev/null 2>&1; rm -rf $WT $SO
+git -C /repo worktree add --detach $WT HEAD >/dev/null 2>&1 || { echo "cannot create worktree"; exit 9; }
+if ! git -C $WT apply $D/patch.diff; then
+  echo "seed=$NAME property=$P patch does not apply"; git -C /repo worktree remove --force $WT; exit 9
+fi
+VERIF_REPO=$WT VERIF_OUT=$SO VERIF_EVIDENCE=$SO/evidence ./check $P $TIER > $D/check_$P.$TIER.log 2>&1; rc=$?
+git -C /repo worktree remove --force $WT >/dev/null 2>&1; rm -rf $WT $SO
 echo "seed=$NAME property=$P tier=$TIER check_exit=$rc  $(grep -c '^VIOLATION' $D/check_$P.$TIER.log) violation lines"
 grep -E "^VIOLATION|^INCONCLUSIVE|^OK|^  assert" $D/check_$P.$TIER.log | head -4 | cut -c1-260
